@@ -36,7 +36,7 @@ open Liquer Liquer.Proto
 
 namespace StoreH
 
-def keyOfChars (s : List Char) : Key := if s.isEmpty then [] else splitSlash s
+def keyOfChars (s : List Char) : Key := keyOfString s
 def keyOfHex (h : String) : Key := keyOfChars ((decChars h).getD [])
 def keyToHex (k : Key) : String := encChars (joinStr ['/'] k)
 def dataOfHex (h : String) : Data := (hexToBytes h).toList
